@@ -49,6 +49,46 @@ CHECKS = {
         note="kill -9 model; applied order = order of the put/del hook events taken under the write lock",
         technique="TLA+ spec (prefix semantics) + strace crash-image enumeration of the real code judged by TLC",
     ),
+    "C03": dict(
+        category="model_checking",
+        text=("SSTable.tla defines a table as a sorted map over key ranks with Contains/Get/Scan/ScanStartingAt/ScanRange operators (consistency "
+              "checked exhaustively); TLC enumerates all 256 tables over ranks {1,3,5,7} x {value, EMPTY, NIL}; each is written through the "
+              "stream or skip-list writer and read through all four index loaders with probes at every rank 0..8 and all 81 bounds under seeded "
+              "compression pairs, bloom sizings, buffer sizes and 8 adversarial key encodings, plus seeded big tables; every reply judged by TLC."),
+        design_ref="§5 C03",
+        note="byte-level variety comes from enumerated/sampled concretization families, not from a proof; map loader gets an injective mapper",
+        technique="TLA+ spec + TLC exhaustive small-scope enumeration; replay x concretizations; trace validation by TLC",
+    ),
+    "C08": dict(
+        category="model_checking",
+        text=("Merge.tla: TLC enumerates every list of 3 tables x 3 keys (19 683), 4 tables x 2 keys (6 561) and 2 x 2 with empty values, checking "
+              "NewestWins / NoForeignValue / EachKeyOnceAscending / CompactIsScan; the lists are built as real tables (rank 0 = empty key in one "
+              "family), the stacked reader is probed at every rank and bound, MergeCompact (both reductions) and plain Merge outputs are read "
+              "back; seeded bigger lists; all judged by TLC on MergeTrace.tla."),
+        design_ref="§5 C08",
+        note="quick samples the 3x3 / 4x2 spaces, thorough replays all lists",
+        technique="TLA+ spec + TLC exhaustive enumeration; replay on real tables; trace validation by TLC",
+    ),
+    "C11": dict(
+        category="fault_enumeration",
+        text=("For TLC-enumerated lists (Merge.tla) a single fault is placed at every record position of every input iterator and every write "
+              "position of the output writer (plus sampled double faults) for MergeCompact, Merge and the stacked scan; memstore flushes run with "
+              "the stream writer's inner writers failing at every position; at session level ENOSPC is injected by strace into every write(2) of "
+              "a flush's output files and the compaction's writer fails inside the real executeCompaction; TLC judges FaultIsReported / "
+              "NotInstalled on MergeTrace.tla and FaultTrace.tla."),
+        design_ref="§5 C11",
+        note="single faults exhaustive per sampled list; system-level injection needs ptrace; bloom-filter file failures only need to be harmless",
+        technique="fault enumeration generated from the TLA+ spec's lists, outcomes judged by TLC against the spec's oracle",
+    ),
+    "C15": dict(
+        category="model_checking",
+        text=("SSTable.tla's writer (accept / reject / roll-back rule, metadata) is model-checked over all WriteNext sequences x faults; every "
+              "TLC-enumerated sequence of depth 3 (sampled in quick) and simulated deeper ones are replayed through the real stream writer with "
+              "its inner writers wrapped for fault injection, keys of varying length; replies, content, metadata and file sizes judged by TLC."),
+        design_ref="§5 C15",
+        note="faults are injected at the data-append / index-append step through the tag-guarded VerifWrapWriters hook",
+        technique="TLA+ spec + TLC exhaustive check; TLC-generated sequences replayed with fault injection; trace validation by TLC",
+    ),
     "C05": dict(
         category="model_checking",
         text=("SimpleDB.tla with 2 clients, two-step Get, database lock, unbuffered hand-off, flusher and compactor is model-checked over all "
